@@ -1362,6 +1362,7 @@ func (c *Ctx) inmemNoSharing(r *inmemRoles, rule string) {
 	if copyFn == nil {
 		c.Fatalf("role kvs.Record.Copy not found")
 	}
+	c.copyIsDeep(r, rule, copyFn)
 	var isCopied func(v ssa.Value, depth int) bool
 	isCopied = func(v ssa.Value, depth int) bool {
 		os := ir.Origins(v)
@@ -1758,4 +1759,183 @@ func (r *inmemRoles) presenceWitness(f ir.Fact, want bool, depth int, base func(
 		}
 	}
 	return false
+}
+
+// copyIsDeep: the record type's Copy() shares no memory with its receiver - every field of reference type (slice,
+// pointer, map) of the result is nil or freshly allocated on every path on which the receiver's field is not nil. The
+// in-memory table relies on it at every boundary (what it stores, what it hands out).
+func (c *Ctx) copyIsDeep(r *inmemRoles, rule string, fn *ssa.Function) {
+	c.Saw(fn)
+	st := structOf(r.recordT)
+	if st == nil || len(fn.Params) == 0 {
+		c.Undecided(rule, fn, "Copy shares nothing with its receiver", nil, "cannot resolve the record struct")
+		return
+	}
+	recv := fn.Params[0]
+	// the receiver's cell (value receiver spilled to a local) or the receiver pointer
+	var recvCell ssa.Value = recv
+	ir.Instrs(fn, func(in ssa.Instruction) {
+		if s, ok := in.(*ssa.Store); ok && s.Val == ssa.Value(recv) {
+			if al, isAl := s.Addr.(*ssa.Alloc); isAl {
+				recvCell = al
+			}
+		}
+	})
+	fromRecv := func(v ssa.Value, f *types.Var) bool { // v is (a slice of / a copy of) the receiver's field f
+		for _, o := range ir.Origins(v) {
+			x := o
+			if sl, ok := x.(*ssa.Slice); ok {
+				x = sl.X
+			}
+			if u, ok := x.(*ssa.UnOp); ok && u.Op == token.MUL {
+				if fa, isFA := u.X.(*ssa.FieldAddr); isFA && ir.FieldOf(fa) == f && (fa.X == recvCell || fa.X == ssa.Value(recv)) {
+					return true
+				}
+			}
+			if fl, ok := x.(*ssa.Field); ok && ir.FieldOf(fl) == f {
+				return true
+			}
+		}
+		return false
+	}
+	var fresh func(v ssa.Value, depth int) bool
+	fresh = func(v ssa.Value, depth int) bool {
+		if depth > 3 || v == nil {
+			return false
+		}
+		switch x := v.(type) {
+		case *ssa.Const:
+			return x.Value == nil
+		case *ssa.MakeSlice, *ssa.Alloc, *ssa.MakeMap:
+			return true
+		case *ssa.Slice:
+			return fresh(x.X, depth+1)
+		case *ssa.ChangeType:
+			return fresh(x.X, depth+1)
+		case *ssa.Convert:
+			return fresh(x.X, depth+1)
+		case *ssa.Phi:
+			for _, e := range x.Edges {
+				if !fresh(e, depth+1) {
+					return false
+				}
+			}
+			return len(x.Edges) > 0
+		case *ssa.UnOp:
+			if x.Op == token.MUL {
+				if al, ok := x.X.(*ssa.Alloc); ok {
+					sts := ir.StoresTo(al)
+					for _, st := range sts {
+						if !fresh(st.Val, depth+1) {
+							return false
+						}
+					}
+					return len(sts) > 0
+				}
+			}
+		case *ssa.Call:
+			if cc := builtinCall(x, "append"); cc != nil && len(cc.Args) >= 1 {
+				return fresh(cc.Args[0], depth+1)
+			}
+			switch ir.CalleeFullName(x) {
+			case "bytes.Clone", "slices.Clone", "maps.Clone":
+				return true
+			}
+			if cal := ir.StaticCallee(x); cal != nil && len(cal.Blocks) > 0 {
+				rets := ir.Returns(cal)
+				for _, ret := range rets {
+					if len(ret.Results) != 1 || !fresh(ir.ResultValue(ret, 0), depth+1) {
+						return false
+					}
+				}
+				return len(rets) > 0
+			}
+		}
+		return false
+	}
+	for _, ret := range ir.Returns(fn) {
+		if len(ret.Results) != 1 {
+			continue
+		}
+		ld, ok := ret.Results[0].(*ssa.UnOp)
+		var cell *ssa.Alloc
+		if ok && ld.Op == token.MUL {
+			cell, _ = ld.X.(*ssa.Alloc)
+		}
+		if cell == nil {
+			c.Undecided(rule, fn, "Copy shares nothing with its receiver", ret, "the result is not a local record variable")
+			continue
+		}
+		// is the result cell initialised with the receiver as a whole?
+		initAlias := cell == recvCell
+		for _, s := range ir.StoresTo(cell) {
+			for _, o := range ir.Origins(s.Val) {
+				if o == ssa.Value(recv) {
+					initAlias = true
+				}
+				if u, isU := o.(*ssa.UnOp); isU && u.Op == token.MUL && u.X == recvCell {
+					initAlias = true
+				}
+			}
+		}
+		for i := 0; i < st.NumFields(); i++ {
+			f := st.Field(i)
+			switch f.Type().Underlying().(type) {
+			case *types.Slice, *types.Pointer, *types.Map:
+			default:
+				continue
+			}
+			// the receiver's field is nil on this edge: sharing nil shares nothing
+			nilEdge := func(from, to *ssa.BasicBlock) bool {
+				ef := ir.EdgeFact(from, to)
+				if ef == nil {
+					return false
+				}
+				cm, isCmp := ef.Cmp()
+				if !isCmp || cm.Op != token.EQL {
+					return false
+				}
+				x, y := cm.X, cm.Y
+				if ir.IsNilConst(x) {
+					x, y = y, x
+				}
+				return ir.IsNilConst(y) && (fromRecv(x, f) || ir.LoadedField(x) == f)
+			}
+			var aliasStores, otherStores []ssa.Instruction
+			isFieldStore := func(x ssa.Instruction) (ssa.Value, bool) {
+				s, ok := x.(*ssa.Store)
+				if !ok {
+					return nil, false
+				}
+				fa, isFA := s.Addr.(*ssa.FieldAddr)
+				if !isFA || fa.X != ssa.Value(cell) || ir.FieldOf(fa) != f {
+					return nil, false
+				}
+				return s.Val, true
+			}
+			ir.Instrs(fn, func(x ssa.Instruction) {
+				if v, ok := isFieldStore(x); ok {
+					if fresh(v, 0) {
+						otherStores = append(otherStores, x)
+					} else {
+						aliasStores = append(aliasStores, x)
+					}
+				}
+			})
+			anyStore := func(x ssa.Instruction) bool { _, ok := isFieldStore(x); return ok }
+			okField, detail := true, ""
+			if initAlias {
+				if w, _ := (ir.Query{Fn: fn, Block: anyStore, BlockEdge: nilEdge, Target: func(x ssa.Instruction) bool { return x == ssa.Instruction(ret) }}).Find(); w != nil {
+					okField, detail = false, "the result starts as a copy of the receiver and field "+f.Name()+" is not replaced on every path on which it is not nil"
+				}
+			}
+			for _, as := range aliasStores {
+				if w, _ := (ir.Query{Fn: fn, From: as, Block: anyStore, Target: func(x ssa.Instruction) bool { return x == ssa.Instruction(ret) }}).Find(); w != nil {
+					okField, detail = false, "field "+f.Name()+" of the result is assigned a value that is not freshly allocated (it shares the receiver's memory)"
+				}
+			}
+			c.Decide(rule, fn, "Copy duplicates "+f.Name(), ret, okField,
+				"Record.Copy() shares memory with its receiver: "+detail+" - the record in the table, the writer's record and the records handed out by Get then share it, and writing through it changes the stored record without a write operation (no new version, waiters are not woken, an expiry moves)")
+		}
+	}
 }
